@@ -88,6 +88,55 @@ func VerifC44DummyCert(ecdsaKey bool) Certificate {
 // VerifC44ReadClientHello marshals the hello with bfe's own marshaller, feeds it as the first record of
 // a fresh server connection and runs the real (*serverHandshakeState).readClientHello.
 func VerifC44ReadClientHello(cfg *Config, h *VerifC44Hello) *VerifC44Nego {
+	res, _, _ := verifC44Run(cfg, h)
+	return res
+}
+
+func verifC44Alerts(out []byte) int {
+	alert := -1
+	for len(out) >= 5 {
+		n := int(out[3])<<8 | int(out[4])
+		if len(out) < 5+n {
+			break
+		}
+		if out[0] == byte(recordTypeAlert) && n == 2 {
+			alert = int(out[6])
+		}
+		out = out[5+n:]
+	}
+	return alert
+}
+
+// VerifC44ResumeResult is what doResumeHandshake did with the session's stored client certificates.
+type VerifC44ResumeResult struct {
+	Ran       bool // readClientHello decided to resume and doResumeHandshake was run
+	Err       string
+	Alert     int // alert written by doResumeHandshake, -1 if none
+	PeerCerts int // len(conn.peerCertificates) afterwards
+	Verified  int // len(conn.verifiedChains) afterwards
+}
+
+// VerifC44Resume runs readClientHello and, when it decides to resume, doResumeHandshake: ServerHello, then
+// processCertsFromClient on the certificates stored in the session under the connection's CURRENT client-auth
+// policy and CA pool.
+func VerifC44Resume(cfg *Config, h *VerifC44Hello) (*VerifC44Nego, *VerifC44ResumeResult) {
+	res, hs, fc := verifC44Run(cfg, h)
+	rr := &VerifC44ResumeResult{Alert: -1}
+	if res.Err != "" || !res.Resume {
+		return res, rr
+	}
+	rr.Ran = true
+	fc.out = nil
+	if err := hs.doResumeHandshake(); err != nil {
+		rr.Err = err.Error()
+	}
+	rr.Alert = verifC44Alerts(fc.out)
+	rr.PeerCerts = len(hs.c.peerCertificates)
+	rr.Verified = len(hs.c.verifiedChains)
+	return res, rr
+}
+
+func verifC44Run(cfg *Config, h *VerifC44Hello) (*VerifC44Nego, *serverHandshakeState, *verifC44Conn) {
 	m := &clientHelloMsg{
 		vers:               h.Vers,
 		random:             make([]byte, 32),
@@ -108,7 +157,7 @@ func VerifC44ReadClientHello(cfg *Config, h *VerifC44Hello) *VerifC44Nego {
 	rec := []byte{byte(recordTypeHandshake), 3, 1, byte(len(body) >> 8), byte(len(body))}
 	fc := &verifC44Conn{in: append(rec, body...)}
 	c := Server(fc, cfg)
-	hs := serverHandshakeState{c: c}
+	hs := &serverHandshakeState{c: c}
 	nCurves := len(h.Curves)
 	isResume, err := hs.readClientHello()
 	res := &VerifC44Nego{Alert: -1, Resume: isResume, Vers: c.vers, ClientProto: c.clientProtocol, ClientAuth: int(c.clientAuth)}
@@ -143,7 +192,7 @@ func VerifC44ReadClientHello(cfg *Config, h *VerifC44Hello) *VerifC44Nego {
 		res.SessSuite = hs.sessionState.cipherSuite
 		res.SessMaster = hs.sessionState.masterSecret
 	}
-	return res
+	return res, hs, fc
 }
 
 // VerifC44State is a sessionState.
